@@ -31,7 +31,7 @@ std::string gen_token(Rng &r, size_t minlen, size_t maxlen, int cls) {
 }
 
 std::string gen_comm(Rng &r) {
-    static const char *fixed[] = {"bash", "sshd", "cron", "sh", "systemd", "my prog", "a)b", "(paren)", "x", "fifteen-bytes-ok", "bash2", "ba", "sudo", "init", "tmux: server"};
+    static const char *fixed[] = {"bash", "sshd", "cron", "sh", "systemd", "my prog", "a)b", "(paren)", "x", "fifteen-bytes-ok", "bash2", "ba", "sudo", "init", "tmux: server", " lead", "svc-runner ", "  two  blanks "};
     if (r.chance(3, 4)) { std::string s = fixed[r.below(sizeof fixed / sizeof *fixed)]; return s.substr(0, 15); }
     return gen_token(r, 1, 15, 0);
 }
